@@ -261,9 +261,9 @@ def pair_classes(a, b):
     if ka in WHOLE and kb == "f64":
         if b["sp"] == "nan":
             if ka in BIG:
-                s.add("big-vs-nan")
+                s.add("big-vs-nan")                     # C19-F9c (fixed)
         else:
-            s.add("big-vs-float" if ka in BIG else "int-vs-float")
+            s.add("int-vs-float")                       # C19-F9e: all six whole kinds (the big rows delegate to the Float64 row)
     if ka == "record" and kb == "record":
         for x, y in leaf_pairs(a, b):
             if not (x["k"] == "record" and y["k"] == "record"):
